@@ -1,13 +1,15 @@
-(* C02 (growth round) -- executable node-level model run against REAL `Node` objects (byte-for-byte: count byte, memPoolIndex,
-   capacity, the whole index table, every raw item slot, the child array).  Count / asserts / capacity / memPoolIndex come from
-   the cxx2coq-generated functions (Gen_Node, Gen_NodeOpsI, Gen_NodeOpsC); the table, the slots and the children come from the
-   hand model (IndexTable.v; continuous layout: plain insert_at / remove_at) whose refinement is proved there. *)
+(* C02 (growth rounds) -- executable node-level model run against REAL `Node` objects (byte for byte: count byte, memPoolIndex,
+   capacity, the whole index table, every raw item slot, the child array).  Since the second growth round EVERY state change
+   comes from the cxx2coq-generated functions (Gen_Node: pvGetLeafMemPoolIndex; Gen_NodeOpsI / Gen_NodeOpsC: pvInitIndexes,
+   AcceptBackItem, Remove incl. the table / item / child shifts); only the glue that the harness itself performs on the real node
+   (constructing the new item in GetItemPtr(count), SetChild(index + 1, new child) after AcceptBackItem) is written here. *)
 From Coq Require Import ZArith Bool List Lia.
 From MomoCommon Require Import GenPrelude.
-From C02 Require Import Gen_Node Gen_NodeOpsI Gen_NodeOpsC BTreeModel IndexTable NodeOps.
+From C02 Require Import Gen_Node Gen_NodeOpsI Gen_NodeOpsC BTreeModel NodeOps.
 Import ListNotations.
+Local Open Scope Z_scope.
 
-Record nstate := { ns_mpi : Z; ns_cnt : Z; ns_node : inode; ns_children : list Z }.
+Record nstate := { ns_mpi : Z; ns_cnt : Z; ns_tbl : Z -> Z; ns_items : Z -> Z; ns_ch : Z -> Z }.
 
 Section NodeScript.
 Variables (maxCap stepRaw blockCount : nat) (cont : bool).
@@ -15,74 +17,54 @@ Let lp := Z.of_nat (leafPoolCount maxCap stepRaw).
 Let mc := Z.of_nat maxCap.
 Let st := Z.of_nat (capStep maxCap stepRaw).
 
-Definition ns_capacity (s : nstate) : Z := Gen_NodeOpsI.GetCapacity lp mc st (ns_mpi s) (ns_cnt s) (fun _ => 0%Z).
-Definition ns_is_leaf (s : nstate) : bool := Gen_NodeOpsI.IsLeaf lp (ns_mpi s) (ns_cnt s) (fun _ => 0%Z).
-
-Definition fill (c0 : nat) : list Z := map (fun i => (1000 + Z.of_nat i)%Z) (seq 0 c0) ++ repeat 0%Z (maxCap - c0).
+Definition ns_capacity (s : nstate) : Z := Gen_NodeOpsI.GetCapacity lp mc st (ns_mpi s) (ns_cnt s) (ns_tbl s) (ns_ch s).
+Definition ns_is_leaf (s : nstate) : bool := Gen_NodeOpsI.IsLeaf lp (ns_mpi s) (ns_cnt s) (ns_tbl s) (ns_ch s).
 
 (* Node::Create(params, isLeaf, count): leaf -> pvGetLeafMemPoolIndex (no internal node allocated yet), internal -> leafMemPoolCount;
-   the constructor stores count and writes the identity table; the harness then constructs items 1000.. in GetItemPtr(0..count) *)
+   the constructor stores count and runs pvInitIndexes (generated) on the raw memory (modelled as all zero); the harness then
+   constructs items 1000.. in GetItemPtr(0..count) and sets children 1.. *)
 Definition ns_create (leaf : bool) (c0 : nat) : nstate :=
-  {| ns_mpi := if leaf then Gen_Node.pvGetLeafMemPoolIndex lp mc st (Z.of_nat blockCount) 0%Z (Z.of_nat c0) else lp;
-     ns_cnt := Z.of_nat c0;
-     ns_node := {| slots := fill c0; idx := seq 0 maxCap; icount := c0 |};
-     ns_children := if leaf then [] else map Z.of_nat (seq 1 (S c0)) |}.
+  let mpi := if leaf then Gen_Node.pvGetLeafMemPoolIndex lp mc st (Z.of_nat blockCount) 0 (Z.of_nat c0) else lp in
+  let t := match Gen_NodeOpsI.pvInitIndexes mc mpi (Z.of_nat c0) (fun _ => 0) (fun _ => 0) with Ok (_, t') => t' | _ => (fun _ => -1) end in
+  {| ns_mpi := mpi; ns_cnt := Z.of_nat c0; ns_tbl := t;
+     ns_items := fun j => if andb (0 <=? j) (j <? Z.of_nat c0) then 1000 + j else 0;
+     ns_ch := fun j => if leaf then 0 else j + 1 |}.
 
-Definition gen_accept (s : nstate) (index : Z) : outcome Z :=
-  if cont then match Gen_NodeOpsC.AcceptBackItem lp mc st (ns_mpi s) (ns_cnt s) index 0%Z with
-               | Ok (_, c) => Ok c | Stuck => Stuck | Fuel => Fuel | Exn => Exn end
-  else match Gen_NodeOpsI.AcceptBackItem lp mc st (ns_mpi s) (ns_cnt s) (tbl (idx (ns_node s))) index 0%Z with
-       | Ok (_, c, _) => Ok c | Stuck => Stuck | Fuel => Fuel | Exn => Exn end.
-Definition gen_remove (s : nstate) (index : Z) : outcome Z :=
-  if cont then match Gen_NodeOpsC.Remove (ns_mpi s) (ns_cnt s) index 0%Z with
-               | Ok (_, c) => Ok c | Stuck => Stuck | Fuel => Fuel | Exn => Exn end
-  else match Gen_NodeOpsI.Remove (ns_mpi s) (ns_cnt s) (tbl (idx (ns_node s))) index 0%Z with
-       | Ok (_, c, _) => Ok c | Stuck => Stuck | Fuel => Fuel | Exn => Exn end.
+(* the slot GetItemPtr(i) denotes *)
+Definition ns_slot_of (s : nstate) (i : Z) : Z := if cont then i else ns_tbl s i.
 
-(* continuous layout: the items themselves are shifted; kept in the same record with the identity table *)
-Definition cont_accept (n : inode) (index : nat) (x : Z) : inode :=
-  {| slots := firstn maxCap (insert_at index x (firstn (icount n) (slots n)) ++ skipn (S (icount n)) (slots n));
-     idx := idx n; icount := S (icount n) |}.
-Definition cont_remove (n : inode) (index : nat) : inode :=
-  {| slots := remove_at index (firstn (icount n) (slots n)) ++ nth (icount n - 1) (slots n) 0%Z :: skipn (icount n) (slots n);
-     idx := idx n; icount := icount n - 1 |}.
+Definition ns_accept (s : nstate) (index x newchild : Z) : option nstate :=
+  let items1 := upd (ns_items s) (ns_slot_of s (ns_cnt s)) x in        (* itemCreator(node->GetItemPtr(count)) *)
+  if cont then
+    match Gen_NodeOpsC.AcceptBackItem lp mc st (ns_mpi s) (ns_cnt s) (ns_ch s) items1 index with
+    | Ok (_, c, ch', it') => Some {| ns_mpi := ns_mpi s; ns_cnt := c; ns_tbl := ns_tbl s; ns_items := it';
+                                     ns_ch := if ns_is_leaf s then ch' else upd ch' (index + 1) newchild |}
+    | _ => None
+    end
+  else
+    match Gen_NodeOpsI.AcceptBackItem lp mc st (ns_mpi s) (ns_cnt s) (ns_tbl s) (ns_ch s) index with
+    | Ok (_, c, t', ch') => Some {| ns_mpi := ns_mpi s; ns_cnt := c; ns_tbl := t'; ns_items := items1;
+                                    ns_ch := if ns_is_leaf s then ch' else upd ch' (index + 1) newchild |}
+    | _ => None
+    end.
 
-Definition ns_accept (s : nstate) (index : nat) (x newchild : Z) : option nstate :=
-  match gen_accept s (Z.of_nat index) with
-  | Ok c => Some {| ns_mpi := ns_mpi s; ns_cnt := c;
-                    ns_node := if cont then cont_accept (ns_node s) index x else accept_back (write_back (ns_node s) x) index;
-                    ns_children := if ns_is_leaf s then [] else insert_at (S index) newchild (ns_children s) |}
-  | _ => None
-  end.
-Definition ns_remove (s : nstate) (index : nat) : option nstate :=
-  match gen_remove s (Z.of_nat index) with
-  | Ok c => Some {| ns_mpi := ns_mpi s; ns_cnt := c;
-                    ns_node := if cont then cont_remove (ns_node s) index else remove_idx (ns_node s) index;
-                    ns_children := if ns_is_leaf s then [] else remove_at index (ns_children s) |}
-  | _ => None
-  end.
+Definition ns_remove (s : nstate) (index : Z) : option nstate :=
+  if cont then
+    match Gen_NodeOpsC.Remove lp (ns_mpi s) (ns_cnt s) (ns_ch s) (ns_items s) index with
+    | Ok (_, c, ch', it') => Some {| ns_mpi := ns_mpi s; ns_cnt := c; ns_tbl := ns_tbl s; ns_items := it'; ns_ch := ch' |}
+    | _ => None
+    end
+  else
+    match Gen_NodeOpsI.Remove lp (ns_mpi s) (ns_cnt s) (ns_tbl s) (ns_ch s) index with
+    | Ok (_, c, t', ch') => Some {| ns_mpi := ns_mpi s; ns_cnt := c; ns_tbl := t'; ns_items := ns_items s; ns_ch := ch' |}
+    | _ => None
+    end.
 
-(* what the harness prints: table, (slot number -> live?) and raw slot contents *)
-Definition ns_table (s : nstate) : list nat := idx (ns_node s).
-Definition ns_live (s : nstate) (slot : nat) : bool :=
-  if cont then slot <? icount (ns_node s) else existsb (Nat.eqb slot) (firstn (icount (ns_node s)) (idx (ns_node s))).
-Definition ns_slot (s : nstate) (slot : nat) : Z := nth slot (slots (ns_node s)) 0%Z.
-Definition ns_hand_count (s : nstate) : nat := icount (ns_node s).
+(* what the harness prints *)
+Definition zseq (n : nat) : list Z := map Z.of_nat (seq 0 n).
+Definition ns_table (s : nstate) : list Z := map (ns_tbl s) (zseq maxCap).
+Definition ns_live (s : nstate) (slot : Z) : bool :=
+  existsb (fun i => ns_slot_of s i =? slot) (zseq (Z.to_nat (ns_cnt s))).
+Definition ns_slot (s : nstate) (slot : Z) : Z := ns_items s slot.
+Definition ns_children (s : nstate) : list Z := map (ns_ch s) (zseq (S (Z.to_nat (ns_cnt s)))).
 End NodeScript.
-
-(* the hand model's count is the generated count (what ties the two halves of ns_accept / ns_remove together) *)
-Theorem ns_accept_count maxCap stepRaw cont s index x nc s' :
-  (0 <= ns_cnt s)%Z -> (ns_capacity maxCap stepRaw s <= 255)%Z -> ns_cnt s = Z.of_nat (icount (ns_node s)) ->
-  ns_accept maxCap stepRaw cont s index x nc = Some s' -> ns_cnt s' = Z.of_nat (icount (ns_node s')).
-Proof.
-  intros H0 Hc E. unfold ns_accept, gen_accept. destruct cont.
-  - unfold Gen_NodeOpsC.AcceptBackItem, Gen_NodeOpsC.GetCount.
-    destruct (_ <? _)%Z eqn:E1; [|discriminate]. destruct (_ <=? _)%Z; [|discriminate]. intros [= <-]. cbn [ns_cnt ns_node cont_accept icount].
-    apply Z.ltb_lt in E1. unfold ns_capacity in Hc. change (Gen_NodeOpsC.GetCapacity ?a ?b ?c ?m ?k) with (Gen_NodeOpsI.GetCapacity a b c m k (fun _ => 0%Z)) in E1.
-    rewrite wrapU_small by (change (2 ^ 8)%Z with 256%Z; lia). lia.
-  - unfold Gen_NodeOpsI.AcceptBackItem, Gen_NodeOpsI.GetCount.
-    destruct (_ <? _)%Z eqn:E1; [|discriminate]. destruct (_ <=? _)%Z; [|discriminate]. intros [= <-]. cbn [ns_cnt ns_node accept_back write_back icount].
-    apply Z.ltb_lt in E1. unfold ns_capacity in Hc.
-    change (Gen_NodeOpsI.GetCapacity ?a ?b ?c ?m ?k ?t) with (Gen_NodeOpsI.GetCapacity a b c m k (fun _ => 0%Z)) in E1.
-    rewrite wrapU_small by (change (2 ^ 8)%Z with 256%Z; lia). lia.
-Qed.
